@@ -7,6 +7,8 @@ CONSTANTS
   AtomicSet = {TRUE}
   TrackLast = FALSE
   UseRoller = TRUE
+  SplitNew = TRUE
+  NewLoads = 1
 INVARIANTS C03_Quiet
 PROPERTIES C03_Live
 CHECK_DEADLOCK FALSE
